@@ -414,7 +414,7 @@ func main() {
 	account.Init()
 	rng := vutil.Rng(3000 + *salt)
 	tr := vutil.NewTrace(outAbs)
-	totalWrites, totalNodes, totalReopens, maxBatches := 0, 0, 0, 0
+	totalWrites, totalNodes, totalReopens, maxBatches, nAborted := 0, 0, 0, 0, 0
 	kindsAll := map[string]int{}
 	for h := 0; h < *histories; h++ {
 		sharing := h%2 == 1 || *histories == 1
@@ -439,10 +439,14 @@ func main() {
 		crash, _ := db.NewMemDatabase() // holds exactly the writes replayed so far
 		prev := common.Hash{}
 		done := 0
-		for b := 0; b < *blocks; b++ {
+		aborted := ""
+		for b := 0; b < *blocks && aborted == ""; b++ {
+			// a failure of the real code to continue from its own committed state is an
+			// observation (event Aborted), the writes so far are still judged
 			s, err := account.NewAccountDB(prev, adb)
 			if err != nil {
-				vutil.Fatalf("open block state: %v", err)
+				aborted = fmt.Sprintf("block %d: NewAccountDB: %v", b+1, err)
+				break
 			}
 			if b == 0 {
 				s.SetNonce(token, 1)
@@ -450,20 +454,33 @@ func main() {
 			for k, v := range mutate(s, u, rng, *muts, sharing) {
 				kindsAll[k] += v
 			}
-			s.IntermediateRoot(true)
-			snap := snapshot(s, u) // what is readable before the commit
-			root, err := s.Commit(true)
-			if err != nil {
-				vutil.Fatalf("AccountDB.Commit: %v", err)
-			}
+			var snap []acctSnap
+			var root common.Hash
 			before := len(rec.log)
-			if err := adb.TrieDB().Commit(root, false); err != nil {
-				vutil.Fatalf("NodeDatabase.Commit: %v", err)
-			}
+			func() {
+				defer func() {
+					if p := recover(); p != nil {
+						aborted = fmt.Sprintf("block %d: panic: %v", b+1, p)
+					}
+				}()
+				s.IntermediateRoot(true)
+				snap = snapshot(s, u) // what is readable before the commit
+				root, err = s.Commit(true)
+				if err != nil {
+					aborted = fmt.Sprintf("block %d: AccountDB.Commit: %v", b+1, err)
+					return
+				}
+				if err := adb.TrieDB().Commit(root, false); err != nil {
+					aborted = fmt.Sprintf("block %d: NodeDatabase.Commit: %v", b+1, err)
+				}
+			}()
 			if n := len(rec.log) - before; n > maxBatches {
 				maxBatches = n
 			}
-			roots = append(roots, rootInfo{root, snap})
+			committedOK := aborted == ""
+			if committedOK {
+				roots = append(roots, rootInfo{root, snap})
+			}
 			// every prefix of the write sequence: replay it into `crash` and re-open every root so far
 			for ; done < len(rec.log); done++ {
 				w := &rec.log[done]
@@ -485,9 +502,11 @@ func main() {
 				}
 				steps = append(steps, st)
 			}
-			r := root
-			steps = append(steps, step{committed: &r})
-			prev = root
+			if committedOK {
+				r := root
+				steps = append(steps, step{committed: &r})
+				prev = root
+			}
 		}
 		// number the nodes in write order, then emit
 		m := &ids{of: map[string]int{}}
@@ -554,8 +573,13 @@ func main() {
 			tr.Emit(map[string]interface{}{"event": "Reopen", "k": k, "kind": "", "first": seen + 1, "nodes": empty, "again": []int{},
 				"deleted": []int{}, "root": 0, "roots": rr, "undecodable": 0, "written": written})
 		}
+		if aborted != "" {
+			nAborted++
+			tr.Emit(map[string]interface{}{"event": "Aborted", "k": k, "kind": aborted, "first": seen + 1, "nodes": empty, "again": []int{},
+				"deleted": []int{}, "root": 0, "roots": empty, "undecodable": 0, "written": written})
+		}
 	}
 	tr.Close()
-	fmt.Printf("c03: histories=%d writes=%d nodes=%d reopens=%d maxBatchesPerCommit=%d events=%d kinds=%v\n",
-		*histories, totalWrites, totalNodes, totalReopens, maxBatches, tr.N, kindsAll)
+	fmt.Printf("c03: histories=%d writes=%d nodes=%d reopens=%d maxBatchesPerCommit=%d aborted=%d events=%d kinds=%v\n",
+		*histories, totalWrites, totalNodes, totalReopens, maxBatches, nAborted, tr.N, kindsAll)
 }
